@@ -21,12 +21,14 @@ Inductive ty :=
 | TAddr
 | TSArr (t : ty) (n : Z)
 | TDArr (t : ty) (cap : Z)
-| TStruct (fs : list ty).
+| TStruct (fs : list ty)
+| TMap (k v : ty).                   (* HashMap[k, v]: storage only; keys are integers / bool / address *)
 
 Inductive value :=
 | VInt (z : Z)
 | VBool (b : bool)
-| VList (l : list value).          (* static array, DynArray (its live prefix), struct, unit = VList [] *)
+| VList (l : list value)           (* static array, DynArray (its live prefix), struct, unit = VList [] *)
+| VMap (dflt : value) (m : list (Z * value)).   (* HashMap: explicitly written keys; every other key holds dflt *)
 
 Definition int_lo (bits : Z) (signed : bool) : Z := if signed then - 2 ^ (bits - 1) else 0.
 Definition int_hi (bits : Z) (signed : bool) : Z := if signed then 2 ^ (bits - 1) - 1 else 2 ^ bits - 1.
@@ -45,6 +47,7 @@ Fixpoint zero_of (t : ty) : value :=
   | TDArr _ _ => VList []
   | TStruct fs => VList ((fix go (l : list ty) : list value :=
                             match l with [] => [] | x :: r => zero_of x :: go r end) fs)
+  | TMap _ v => VMap (zero_of v) []
   end.
 
 (* does a value inhabit a type (used for ABI validation of external arguments) *)
@@ -126,7 +129,7 @@ Record prog := mkProg {
 (* ---------- state, effects, results ---------- *)
 Inductive event :=
 | EvLog (id : nat) (args : list value)
-| EvStore (transient : bool) (x : nat) (p : list nat) (v : value)
+| EvStore (transient : bool) (x : nat) (p : list Z) (v : value)
 | EvCall (f : nat) (args : list value)
 | EvRet (f : nat).
 
@@ -173,26 +176,50 @@ Fixpoint upd_nth {A} (n : nat) (a : A) (l : list A) : list A :=
   | x :: r, S k => x :: upd_nth k a r
   end.
 
-(* value at a concrete path inside a value tree *)
-Fixpoint get_path (p : list nat) (v : value) : option value :=
+(* association lists for HashMap contents *)
+Fixpoint mget (k : Z) (m : list (Z * value)) : option value :=
+  match m with [] => None | (j, v) :: r => if Z.eqb k j then Some v else mget k r end.
+Fixpoint mset (k : Z) (v : value) (m : list (Z * value)) : list (Z * value) :=
+  match m with
+  | [] => [(k, v)]
+  | (j, w) :: r => if Z.eqb k j then (j, v) :: r else (j, w) :: mset k v r
+  end.
+Definition mlook (d : value) (k : Z) (m : list (Z * value)) : value :=
+  match mget k m with Some v => v | None => d end.
+
+(* list access by a Z index (None when out of range; never converts a large Z to nat) *)
+Definition zidx {A} (l : list A) (i : Z) : option A :=
+  if (0 <=? i) && (i <? Z.of_nat (length l)) then nth_error l (Z.to_nat i) else None.
+
+(* a HashMap key as an integer *)
+Definition key_of (v : value) : option Z :=
+  match v with VInt z => Some z | VBool b => Some (if b then 1 else 0) | _ => None end.
+
+(* value at a concrete path inside a value tree; path elements are list indices / field numbers / map keys *)
+Fixpoint get_path (p : list Z) (v : value) : option value :=
   match p with
   | [] => Some v
   | i :: r => match v with
-              | VList l => match nth_error l i with Some w => get_path r w | None => None end
+              | VList l => match zidx l i with Some w => get_path r w | None => None end
+              | VMap d m => get_path r (mlook d i m)
               | _ => None
               end
   end.
-Fixpoint set_path (p : list nat) (x : value) (v : value) : option value :=
+Fixpoint set_path (p : list Z) (x : value) (v : value) : option value :=
   match p with
   | [] => Some x
   | i :: r => match v with
-              | VList l => match nth_error l i with
+              | VList l => match zidx l i with
                            | Some w => match set_path r x w with
-                                       | Some w' => Some (VList (upd_nth i w' l))
+                                       | Some w' => Some (VList (upd_nth (Z.to_nat i) w' l))
                                        | None => None
                                        end
                            | None => None
                            end
+              | VMap d m => match set_path r x (mlook d i m) with
+                            | Some w' => Some (VMap d (mset i w' m))
+                            | None => None
+                            end
               | _ => None
               end
   end.
@@ -209,7 +236,7 @@ Definition base_set (b : tbase) (v : value) (s : state) : state :=
   | BSto x => mkState (st_loc s) (upd_nth x v (st_sto s)) (st_tra s)
   | BTra x => mkState (st_loc s) (st_sto s) (upd_nth x v (st_tra s))
   end.
-Definition store_event (b : tbase) (p : list nat) (v : value) : list event :=
+Definition store_event (b : tbase) (p : list Z) (v : value) : list event :=
   match b with
   | BLoc _ => []
   | BSto x => [EvStore false x p v]
@@ -348,6 +375,8 @@ Fixpoint eval (fuel : nat) (e : expr) (s : state) {struct fuel} : R value :=
           if (0 <=? z) && (z <? Z.of_nat (length l)) then
             match nth_error l (Z.to_nat z) with Some v => ret v s2 | None => Fail Stuck end
           else Fail Revert
+      | VMap d m, _ =>
+          match key_of vi with Some z => ret (mlook d z m) s2 | None => Fail Stuck end
       | _, _ => Fail Stuck
       end
   | EFld a k =>
@@ -414,15 +443,15 @@ with eval_list (fuel : nat) (l : list expr) (s : state) {struct fuel} : R (list 
   end end
 
 (* evaluate the index expressions of a target path left to right, bounds-checking each
-   against the container it indexes; yields a concrete path *)
-with resolve (fuel : nat) (p : path) (cur : value) (s : state) {struct fuel} : R (list nat) :=
+   against the array it indexes (HashMap keys need no check); yields a concrete path *)
+with resolve (fuel : nat) (p : path) (cur : value) (s : state) {struct fuel} : R (list Z) :=
   match fuel with O => Fail OutOfFuel | S f =>
   match p with
   | [] => ret [] s
   | inr k :: r =>
       match cur with
       | VList l => match nth_error l k with
-                   | Some w => do cp, s1 <- resolve f r w s; ret (k :: cp) s1
+                   | Some w => do cp, s1 <- resolve f r w s; ret (Z.of_nat k :: cp) s1
                    | None => Fail Stuck
                    end
       | _ => Fail Stuck
@@ -433,10 +462,15 @@ with resolve (fuel : nat) (p : path) (cur : value) (s : state) {struct fuel} : R
       | VList l, VInt z =>
           if (0 <=? z) && (z <? Z.of_nat (length l)) then
             match nth_error l (Z.to_nat z) with
-            | Some w => do cp, s2 <- resolve f r w s1; ret (Z.to_nat z :: cp) s2
+            | Some w => do cp, s2 <- resolve f r w s1; ret (z :: cp) s2
             | None => Fail Stuck
             end
           else Fail Revert
+      | VMap d m, _ =>
+          match key_of vi with
+          | Some z => do cp, s2 <- resolve f r (mlook d z m) s1; ret (z :: cp) s2
+          | None => Fail Stuck
+          end
       | _, _ => Fail Stuck
       end
   end end
